@@ -1,6 +1,7 @@
 import Model.I128
 import Lemmas.U128Bits
 import Lemmas.I128Basic
+import Lemmas.GenAttr
 import Mathlib.Tactic.SplitIfs
 /-! C01, second tie: helper lemmas and the proof script used by `Props/C01Gen.lean` to identify the definitions that
     `gossa/ssagen` regenerates from the Go source on every run (`Generated/SSA_Num.lean`, namespace `Gen`) with the
@@ -190,21 +191,22 @@ macro "gen_leaf" : tactic => `(tactic| first
         and_self, and_true, true_and] at *) <;> omega)
   | (simp_all <;> omega))
 
-/-- `gen_tie [defs] [consts]`: state a `Bool` equation as an equivalence, unfold the function definitions `defs`
-    (generated and model) while turning `Bool` connectives into propositions, only then unfold the constants `consts`
-    (so that the `Decidable` instances under a `decide` still match when it is removed), normalise, split every `if`,
+/-- `gen_tie [defs] [consts]`: state a `Bool` equation as an equivalence, unfold every generated function (simp set
+    `gen_def`) and the model definitions `defs` while turning `Bool` connectives into propositions, only then unfold
+    the generated constants (`gen_const`) and the model constants `consts` (so that the `Decidable` instances under a `decide` still match when it is removed), normalise, split every `if`,
     close the leaves -/
 syntax "gen_tie" "[" Lean.Parser.Tactic.simpLemma,* "]" ("[" Lean.Parser.Tactic.simpLemma,* "]")? : tactic
 macro_rules
+  | `(tactic| gen_tie []) => `(tactic| gen_tie [eq_self_iff_true])
   | `(tactic| gen_tie [$ls,*] [$cs,*]) => `(tactic|
       (try with_reducible refine Bool.eq_iff_iff.mpr ?_) <;>
-      (simp only [$ls,*, Bool.and_eq_true, Bool.or_eq_true, decide_eq_true_eq, Bool.ite_eq_true_distrib,
+      (simp only [gen_def, $ls,*, Bool.and_eq_true, Bool.or_eq_true, decide_eq_true_eq, Bool.ite_eq_true_distrib,
         Bool.ite_eq_false_distrib, Bool.not_eq_true', decide_eq_false_iff_not, Bool.false_eq_true,
         Bool.true_eq_false, eq_self_iff_true]) <;>
-      (try simp only [$cs,*]) <;> gen_norm <;> (try split_ifs) <;> gen_leaf)
+      (try simp only [gen_const, $cs,*]) <;> gen_norm <;> (try split_ifs) <;> gen_leaf)
   | `(tactic| gen_tie [$ls,*]) => `(tactic|
       (try with_reducible refine Bool.eq_iff_iff.mpr ?_) <;>
-      (simp only [$ls,*, Bool.and_eq_true, Bool.or_eq_true, decide_eq_true_eq, Bool.ite_eq_true_distrib,
+      (simp only [gen_def, $ls,*, Bool.and_eq_true, Bool.or_eq_true, decide_eq_true_eq, Bool.ite_eq_true_distrib,
         Bool.ite_eq_false_distrib, Bool.not_eq_true', decide_eq_false_iff_not, Bool.false_eq_true,
         Bool.true_eq_false, eq_self_iff_true]) <;>
-      gen_norm <;> (try split_ifs) <;> gen_leaf)
+      (try simp only [gen_const]) <;> gen_norm <;> (try split_ifs) <;> gen_leaf)
